@@ -106,7 +106,9 @@ def impl(c):
     rng = random.Random(c["extra"] or 7)
     bs = GT.probe_beats(c["td"], rng if c["extra"] else None)
     rt = [[b, fq(eng.beat_at(eng.time_at(Beat(b, 48))))] for b in bs]
-    return {"probes": [[t.hex(), tag] for t, tag in ps], "beats": ans, "beats_redundant": ans2, "roundtrip": rt, "unstable": unstable[:5]}
+    # beat 0 under the warp tags, both ways: the keys (0, WARP) and (0, WARP_END) precede the initial state's own key
+    rt0 = [fq(eng.beat_at(eng.time_at(Beat(0), EventTag(tg)), EventTag.WARP)) for tg in (0, 1)] + [float(eng.time_at(Beat(0), EventTag(tg))) == float(eng.time_at(Beat(0), EventTag.BPM)) for tg in (0, 1)]
+    return {"probes": [[t.hex(), tag] for t, tag in ps], "beats": ans, "beats_redundant": ans2, "roundtrip": rt, "unstable": unstable[:5], "rt0": rt0}
 
 
 def warp_union(td):
@@ -176,6 +178,8 @@ def oracle(c, o):
     dy = td["family"] == "dyadic"
     ps = [(float.fromhex(h), tag) for h, tag in o["probes"]]
     beats = [Fraction(*b) for b in o["beats"]]
+    if o.get("rt0") is not None and o["rt0"] != [[0, 1], [0, 1], True, True]:
+        return "beat 0 under the WARP / WARP_END tags: time_at must be the time of beat 0 and beat_at(.., WARP) of it beat 0; got %s" % (o["rt0"],)
     if o.get("unstable"):
         i = o["unstable"][0]
         return "beat_at(%r, %s) answered %s at first and something else when asked again on the same engine (other queries in between)" % (ps[i][0], GT.TAGS[ps[i][1]], beats[i])
